@@ -19,7 +19,8 @@
     (`Theorems/Structural.lean`, `Theorems/ExternForm.lean`): `C06_friend_outside_class`,
     `C06_access_outside_class` (error at the keyword, nothing consumed or delivered),
     `C06_namespace_in_class` (also namespace aliases), `C06_concept_in_class`,
-    `C06_extern_in_class`, `C06_mismatched_closer` / `C06_closer_nothing_open` (bracket matcher).
+    `C06_extern_in_class`, `C06_mismatched_closer` / `C06_closer_nothing_open` (bracket matcher; a `]]` that closes two
+    `[` is taken apart, not rejected).
   The remaining rejection rules are sites of the parser model tied by the correspondence and
   searched by the oracle; Python-level exceptions inside helpers are runtime behaviour (named).
 -/
@@ -111,9 +112,10 @@ theorem C06_extern_in_class (env : Env) (F : Nat) (c : P.Core) (tok : CTok) (dox
   exact ⟨w', hb, hs', by rw [hi, interp_raise_some]⟩
 
 theorem C06_mismatched_closer (st : List CTok × List String) (tok : CTok) (e : String) (stack : List String)
-    (hend : P.isBalancedEnd tok.type = true) (hst : st.2 = e :: stack) (hne : tok.type ≠ e) (h1 : tok.type ≠ ">") (h2 : e ≠ ">") :
+    (hend : P.isBalancedEnd tok.type = true) (hst : st.2 = e :: stack) (hne : tok.type ≠ e) (h1 : tok.type ≠ ">") (h2 : e ≠ ">")
+    (hnf : P.fusedClosers tok.type e stack = false) :
     P.balStep st tok = .error (P.unexpectedErr tok e) :=
-  mismatched_closer st tok e stack hend hst hne h1 h2
+  mismatched_closer st tok e stack hend hst hne h1 h2 hnf
 
 theorem C06_closer_nothing_open (st : List CTok × List String) (tok : CTok)
     (hend : P.isBalancedEnd tok.type = true) (hst : st.2 = []) : ∃ e, P.balStep st tok = .error e :=
